@@ -10,7 +10,7 @@ cp $wt/seed_out/patch.diff $wt/seed_out/demo.rs $out/ 2>/dev/null
 cp $wt/seed_out/notes.md $out/notes.md 2>/dev/null
 cd $wt && git checkout -q -- . && mkdir -p tests && cp seed_out/demo.rs tests/demo.rs
 export CARGO_NET_OFFLINE=true
-feat=""; grep -q "no-default-features" seed_out/notes.md 2>/dev/null && grep -qi "cfg!(feature\|must be run with .--no-default-features" seed_out/notes.md && feat="--no-default-features"
+feat=""; case "$name" in C17*) feat="--no-default-features";; esac    # C17 is about the build WITHOUT the default feature: its demos run there
 base_demo=$(cargo test --offline --test demo $feat 2>&1 | grep -E "^test result:" | head -1)
 git apply seed_out/patch.diff
 suite=$(cargo test --offline --lib 2>&1 | grep -E "^test result:" | head -1)
